@@ -77,10 +77,48 @@ def gen_lists(rng, op, w, n, count):
     return [a, b]
 
 
+INTERNAL = ("U.int.div_rem_digit", "U.int.div_rem_unchecked", "U.int.basecase_div_rem", "U.int.last_digit_index", "I.int.div_rem_unchecked")
+
+
+def ldi(v, w, n):
+    ds = to_digits(v, w, n)
+    idx = 0
+    for i in range(1, n):
+        if ds[i]:
+            idx = i
+    return idx
+
+
+def gen_internal(rng, tier, configs):
+    """internal functions through the hooks; preconditions of the callers respected (non-zero divisor;
+    basecase_div_rem only for self > v with v of >= 2 digits, n = last_digit_index(v) + 1)"""
+    out = []
+    per = 120 if tier == "thorough" else 14
+    for (w, n) in configs:
+        k = per if w * n <= 1100 else 2
+        M = 1 << (w * n)
+        for _ in range(k):
+            a = gen_value(rng, w, n)
+            d = gen_digit(rng, w) or 1
+            out.append(fmt_line("U.int.div_rem_digit", w, n, [a, d], "LZ"))
+            out.append(fmt_line("U.int.last_digit_index", w, n, [a], "L"))
+            x, y = gen_lists(rng, "U.checked_div", w, n, 2)
+            if y % M:
+                out.append(fmt_line("U.int.div_rem_unchecked", w, n, [x, y], "LL"))
+                if n >= 2 and x > y and ldi(y, w, n) >= 1:
+                    out.append(fmt_line("U.int.basecase_div_rem", w, n, [x, y, ldi(y, w, n) + 1], "LLZ"))
+            x, y = gen_lists(rng, "I.checked_div", w, n, 2)
+            if y % M:
+                out.append(fmt_line("I.int.div_rem_unchecked", w, n, [x, y], "LL"))
+    return out
+
+
 def gen(rng, tier):
     thorough = tier == "thorough"
-    out = std_gen(rng, tier, OPS, CONFIGS_ALL if thorough else CONFIGS_QUICK, 300 if thorough else 36,
+    configs = CONFIGS_ALL if thorough else CONFIGS_QUICK
+    out = std_gen(rng, tier, {k: v for k, v in OPS.items() if k not in INTERNAL}, configs, 300 if thorough else 36,
                   gen_lists=gen_lists, big_divisor=40)
+    out += gen_internal(rng, tier, configs)
     if thorough:
         out += exhaustive8(OPS)
         # (8,2) vs (8,2): all 16-bit dividends against a sample of divisors for the core ops (Knuth path at w=8)
@@ -107,6 +145,8 @@ def nontrivial(case, result):
         return True
     toks = case.split(" ")
     w = int(toks[1])
+    if len(toks) < 5 or not toks[4].startswith("L:"):
+        return toks[0] != "U.int.last_digit_index"
     a = parse_L(toks[3])
     b = parse_L(toks[4])
     if toks[0].startswith("U."):
